@@ -340,6 +340,9 @@ func (g *specGen) next() callSpec {
 			if kind == "MapFn" && rng.Intn(2) == 0 {
 				r += ",l_mark"
 			}
+			if kind == "MapFn" && rng.Intn(3) == 0 {
+				r = "l_two," + r // a second per-call function: each name resolves to ITS function
+			}
 			rm[key] = r
 			m.SetMapIndex(reflect.ValueOf(key), gen.TunedLeaf(rng, t, r, 0.15))
 		}
@@ -379,7 +382,7 @@ func (g *specGen) next() callSpec {
 			s.Run = func() string { return normErr(drive.Call(func() error { return valid.Map(in, rm) })) }
 		} else {
 			mark := fmt.Sprintf("fn_map_%d", s.ID)
-			fns := valid.Name2FnMap{"l_mark": markerFn(mark)}
+			fns := valid.Name2FnMap{"l_mark": markerFn(mark), "l_two": markerFn(mark + "_two"), "l_unused": markerFn(mark + "_unused")}
 			s.Desc = fmt.Sprintf("MapFn(%v,%v,{l_mark})", in, rm)
 			s.Run = func() string { return normErr(drive.Call(func() error { return valid.MapFn(in, rm, fns) })) }
 		}
